@@ -264,6 +264,17 @@ func polyStage(r *ev.Run, full bool) {
 			jobs = append(jobs, job{[]float64{q, pp, 0, 1}, nil, "x^3 + p x + q"})
 		}
 	}
+	// every 9th polynomial again with all coefficients multiplied by 2^-30 and 2^30: the same roots
+	n0 := len(jobs)
+	for i := 0; i < n0; i += 9 {
+		for _, k := range []float64{1.0 / (1 << 30), 1 << 30} {
+			q := make([]float64, len(jobs[i].p))
+			for j, a := range jobs[i].p {
+				q[j] = a * k
+			}
+			jobs = append(jobs, job{q, jobs[i].planted, fmt.Sprintf("%s, coefficients x %g", jobs[i].note, k)})
+		}
+	}
 	ev.Parallel(len(jobs), 0, func(i int) { checkPoly(r, jobs[i].p, jobs[i].planted, jobs[i].note) })
 	r.Set("polynomials", len(jobs))
 }
